@@ -121,6 +121,10 @@ type stateObject struct {
 	dirtyCode bool // true if the code was updated
 	suicided  bool
 	deleted   bool
+	// created is set on an object made by createObject: it starts with empty storage whatever the
+	// store still holds under its address (a replaced or formerly deleted account), and those old
+	// records are removed when the object is written out.
+	created bool
 }
 
 func newStateObject(db *CommitStateDB, acc *balance.EthAccount) *stateObject {
@@ -194,8 +198,11 @@ func (so *stateObject) GetCommittedState(_ ethstate.Database, key ethcmn.Hash) e
 	state := NewState(prefixKey, ethcmn.Hash{})
 	value := ethcmn.Hash{}
 
-	prefixStore := evm.AddressStoragePrefix(so.Address())
-	rawValue, _ := so.stateDB.contractStore.Get(prefixStore, prefixKey.Bytes())
+	var rawValue []byte
+	if !so.created { // a created object has no committed storage (go-ethereum: an empty trie)
+		prefixStore := evm.AddressStoragePrefix(so.Address())
+		rawValue, _ = so.stateDB.contractStore.Get(prefixStore, prefixKey.Bytes())
+	}
 	if len(rawValue) > 0 {
 		value.SetBytes(rawValue)
 		state.Value = value.String()
@@ -455,6 +462,7 @@ func (so *stateObject) deepCopy(db *CommitStateDB) *stateObject {
 	newStateObj.suicided = so.suicided
 	newStateObj.dirtyCode = so.dirtyCode
 	newStateObj.deleted = so.deleted
+	newStateObj.created = so.created
 
 	return newStateObj
 }
